@@ -70,6 +70,19 @@ var OverlongVarints = [][]byte{
 // input is exhausted, so a 5-byte count of 2^31 in a BODY costs ~2^31 iterations (minutes under -race). That is a
 // slow request, not a crash; the corpus keeps body tag counts small on purpose and the parent has a stall watchdog.
 func TagSections(rem int, maxCount uint64) [][]byte {
+	key := [2]uint64{uint64(rem), maxCount}
+	if v, ok := tagSectionCache[key]; ok {
+		return v
+	}
+	v := tagSections(rem, maxCount)
+	tagSectionCache[key] = v
+	return v
+}
+
+// the sections only depend on (rem, maxCount); the corpus builder asks for them thousands of times (single goroutine)
+var tagSectionCache = map[[2]uint64][][]byte{}
+
+func tagSections(rem int, maxCount uint64) [][]byte {
 	var out [][]byte
 	sizes := []uint64{0, 1, 2, 127, 128, uint64(rem), uint64(rem + 1), 1<<31 - 1, 1 << 31, 1<<32 - 1, 1 << 32, 1 << 62, 1<<63 - 1, 1 << 63, 1<<63 + 1, 1<<64 - 2, 1<<64 - 1}
 	if rem > 0 {
